@@ -131,7 +131,7 @@ def network_packets(ctx, rng):
 def check_transparency(ctx, rng, fe):
     pk = network_packets(ctx, rng)
     res = {'viol': []}
-    reps = ctx.n(12, 2400)
+    reps = ctx.n(36, 2400)
 
     async def main(S):
         A, B = Twin(fe, S), Twin(fe, S)
@@ -200,7 +200,7 @@ REASONS = [0, 50, 100, 150, 255, 256, 65535, 65536, 2**32 - 1, 2**32, 2**64 - 1]
 
 def check_nack(ctx, rng, fe):
     res = {'viol': []}
-    n = ctx.n(600, 160000)
+    n = ctx.n(1800, 160000)
 
     async def main(S):
         T = Twin(fe, S)
@@ -263,7 +263,7 @@ def check_nack(ctx, rng, fe):
 
 def check_pit_token(ctx, rng):
     res = {'viol': []}
-    rounds = ctx.n(400, 120000)
+    rounds = ctx.n(1200, 120000)
 
     async def main(S):
         face = RecFace()
